@@ -133,6 +133,15 @@ def h_ragged(l1: int, l2: int, l3: int, l4: int, l5: int, l6: int, l7: int, k: i
         ra.append(mk('same', k, atom, numtype, 'little', 1))
     elif op == 'iterappend':
         ra.iterappend([mk('same', k, atom, numtype, 'little', 1), mk('cast', 2, atom, numtype, 'little', 2)])
+    elif op == 'failed-iterappend':
+        try:
+            ra.iterappend([mk('same', k, atom, numtype, 'little', 1),
+                           np.ndarray(dt_of(numtype, 'little'), (1,) + atom + (2,), Seq.of(('bad',), 1))])
+            raise Violation('bad ragged append accepted')
+        except Violation:
+            raise
+        except Exception:
+            pass
     elif op == 'truncate':
         assume(0 <= idx < K)
         RA.truncate_raggedarray(ra, idx)
@@ -241,6 +250,11 @@ def replay_readme(cex, d):
                 ra.append(rp.values(np_, k, atom, nt))
             elif op == 'iterappend':
                 ra.iterappend([rp.values(np_, k, atom, nt), rp.values(np_, 2, atom, other)])
+            elif op == 'failed-iterappend':
+                try:
+                    ra.iterappend([rp.values(np_, k, atom, nt), np_.zeros((1,) + atom + (2,), dtype=nt)])
+                except Exception:
+                    pass
             elif op == 'truncate':
                 darr.truncate_raggedarray(ra, int(fx['idx']))
             elif op == 'create':
@@ -272,7 +286,7 @@ def obligations(tier):
               sym='n, k, idx', bounds='n, k unbounded; one operation from {append, iterappend, truncate, metadata create/update/'
                                       'delete, failed append, overwrite=True re-creation, copy, create_array}; all offered '
                                       'languages are rendered by the real readcodetxt')]
-    rops = ['append', 'iterappend', 'truncate', 'create', 'as', 'copy']
+    rops = ['append', 'iterappend', 'failed-iterappend', 'truncate', 'create', 'as', 'copy']
     rsplits = []
     for op in rops:
         for K in ((0, 1, 2, 4, 5, 6, 7) if thorough else (0, 1, 5, 6)):
